@@ -6,7 +6,9 @@ keys=[c.key for c in spec.contracts if c.kind=='func']
 dump=props.run_astdump(sorted({props.pkg_of_key(k) for k in keys}),keys)
 v=GoVerifier(dump,spec); v.load_axioms()
 fn=sys.argv[1]
-if fn.startswith('lemma:'): v.verify_lemma(fn[6:])
+if fn.startswith('lemma:'):
+    if len(sys.argv)>4: v.verify_function(sys.argv[4]); v.obls=[]
+    v.verify_lemma(fn[6:])
 else: v.verify_function(fn)
 for o in v.obls:
     if o.name.endswith(sys.argv[2]):
